@@ -3,27 +3,31 @@
 
   Model: `LemoModel.Pool` = /repo/chain/txpool/tx_pool.go exactly as coded, tied to the real code by
   `hx c18` (whole internal state compared after every call).
-    * `fixed = true`  = the code as it is now, i.e. with `delTx` as repaired by /repo commit 85d2f65
-                        ("fix: delTx of a box must clear the slots of its pooled sub-txs"); this is the
-                        model the driver runs.
-    * `fixed = false` = the code BEFORE commit 85d2f65.
+    * `fixed = true`  = the code as it is now, i.e. after /repo commits 85d2f65 ("fix: delTx of a box must
+                        clear the slots of its pooled sub-txs") and 6d2038c ("fix: GetTxs checks size
+                        before allocating the result"); this is the model the driver runs.
+    * `fixed = false` = the code BEFORE both commits (legacy; only for the `legacy` section below).
 
   All theorems quantify over ALL sequences of calls `ops : List Op` (AddTx / AddTxs / GetTxs / DelTxs /
   IsEmpty with arbitrary arguments: nil txs, duplicates, boxes overlapping with standalone txs and with
   each other, any expiry, any size) starting from `NewTxPool()`.  They are proved through an invariant
   (`PoolLemmas.Inv`) preserved by every call.
 
-    * current code (`fixed = true`), full: `no_panic`, `never_expired`, `box_exclusive`,
-      `no_duplicates_handed_out`, `never_deleted`, `none_lost`, `fork_switch_content`,
-      `linearizable`, `concurrent_selection`.
-    * code before 85d2f65 (`fixed = false`): `no_panic` and `never_expired` hold in full too; the four set
-      clauses are REFUTED (`*_refuted`, concrete call sequences, all caused by one defect: `delTx(box)`
-      for a box that is not pooled deleted the index entries of its pooled sub-txs but left their slots)
-      and hold `_partial`ly for every call sequence satisfying `Guarded` (no `DelTxs` of a box one of
-      whose sub-tx hashes is indexed at a live slot other than the box's own).
+  CURRENT CODE
+    * full: `no_panic`, `never_expired`, `box_exclusive`, `no_duplicates_handed_out`, `never_deleted`,
+      `none_lost_pending` (+ `none_lost` for AddTx, `adds_pending` for AddTxs),
+      `fork_switch_content` (a), (b), `concurrent_selection`.
+    * OPEN DEFECT (stale index entries: deleting a sub-tx of a pooled box, or a box sharing a sub-tx with a
+      different pooled box, clears the box's slot but leaves its other index entries; acknowledged in the
+      code comment of `delTx`, pinned by tx_pool_test.go).  REFUTED on the current code:
+      `isEmpty_iff_nothing_pending_refuted`, `add_accepted_iff_no_conflict_refuted`,
+      `slots_reclaimed_refuted`; they hold `_partial`ly for every call sequence satisfying `CleanRun`
+      (every `DelTxs` removes whole transactions only), and so does clause (c) of the fork switch
+      (`fork_switch_adds_partial`).
+  LEGACY (code before 85d2f65/6d2038c): four refutations + the `_partial` theorems under `Guarded`.
 
-  Concurrency: see `linearizable` at the end — the reduction of concurrent histories to the sequential
-  ones above under the checked lock-discipline fact.
+  Concurrency: `Exec`/`linearizable` at the end only DEFINE the atomic-method semantics; that real
+  goroutines obey it rests on the lock scan of `hx c18` plus the `sync.RWMutex` assumption (see there).
 -/
 import LemoModel.Pool
 import LemoProofs.Lemmas.Pool
@@ -37,22 +41,48 @@ def handedOut (fixed : Bool) (ops : List Op) (time : Nat) (size : Int) : Out :=
 theorem inv_run (ops : List Op) : Inv (runState true newPool ops) := runState_fixed_inv inv_new ops
 theorem winv_run (fixed : Bool) (ops : List Op) : WInv (runState fixed newPool ops) := runState_winv fixed winv_new ops
 
-/-- under the guard the code before commit 85d2f65 and the repaired (current) code are indistinguishable -/
-theorem guarded_eq {ops : List Op} (g : Guarded newPool ops) (time : Nat) (size : Int) :
+/-- under the guard the legacy code and the current code are indistinguishable (for `size ≥ 0`: before
+    commit 6d2038c a negative size panicked) -/
+theorem guarded_eq {ops : List Op} (g : Guarded newPool ops) (time : Nat) {size : Int} (hs : 0 ≤ size) :
     handedOut false ops time size = handedOut true ops time size := by
   unfold handedOut
   rw [(run_eq_of_guarded inv_new g).1]
-  rw [step_eq_of_guard (inv_run ops) (op := .get time size) trivial]
+  rw [step_eq_of_guard (inv_run ops) (op := .get time size) (show OpGuard _ (.get time size) from hs)]
 
-/-! ### what holds for all call sequences both before and after the repair (`fixed` arbitrary) -/
+/-! ### no panic; never an expired transaction -/
 
-/-- **no_panic** (current code and the code before 85d2f65): the only call that can panic is `GetTxs` with a negative `size`
-    (`make([]*Transaction, 0, size)` precedes the `size <= 0` test); in particular `pool.txs[index] = nil`
-    never indexes out of range. -/
-theorem no_panic (fixed : Bool) (ops : List Op) (op : Op) :
-    (step fixed (runState fixed newPool ops) op).2 = .panic ↔ ∃ time size, op = .get time size ∧ size < 0 := by
-  have w := winv_run fixed ops
-  generalize runState fixed newPool ops = p at w
+/-- **no_panic** (current code): no call of any call sequence panics — `pool.txs[index] = nil` never
+    indexes out of range, and since commit 6d2038c `GetTxs` validates `size` before allocating (negative
+    → empty list; capacity bounded by the slot count, so a huge `size` reserves nothing). -/
+theorem no_panic (ops : List Op) (op : Op) : (step true (runState true newPool ops) op).2 ≠ .panic := by
+  have w := winv_run true ops
+  generalize runState true newPool ops = p at w
+  intro h
+  cases op with
+  | add t => simp only [step] at h; split at h <;> cases h
+  | adds ts => simp only [step] at h; split at h <;> cases h
+  | isEmpty => simp only [step] at h; cases h
+  | del ds =>
+    rw [step_del] at h
+    cases he : ds.isEmpty with
+    | true => rw [delTxs_empty true p he] at h; cases h
+    | false => obtain ⟨p', _, e, _⟩ := delTxs_spec true w he; rw [e] at h; cases h
+  | get time size =>
+    rw [step_get] at h
+    by_cases hs : 0 < size
+    · obtain ⟨p', l, e, _⟩ := getTxs_spec true w time hs; rw [e] at h; cases h
+    · unfold getTxs at h
+      by_cases h0 : size < 0
+      · simp [h0] at h
+      · have : size = 0 := by omega
+        simp [this] at h
+
+/-- legacy code: the only panic is `GetTxs` with a negative `size` (`make([]*Transaction, 0, size)` ran
+    first). Sizes above ~2^45 also panic in Go and are outside the legacy model. -/
+theorem no_panic_legacy (ops : List Op) (op : Op) :
+    (step false (runState false newPool ops) op).2 = .panic ↔ ∃ time size, op = .get time size ∧ size < 0 := by
+  have w := winv_run false ops
+  generalize runState false newPool ops = p at w
   cases op with
   | add t =>
     simp only [step]
@@ -74,15 +104,15 @@ theorem no_panic (fixed : Bool) (ops : List Op) (op : Op) :
     constructor
     · intro h
       cases he : ds.isEmpty with
-      | true => rw [delTxs_empty fixed p he] at h; cases h
-      | false => obtain ⟨p', _, e, _⟩ := delTxs_spec fixed w he; rw [e] at h; cases h
+      | true => rw [delTxs_empty false p he] at h; cases h
+      | false => obtain ⟨p', _, e, _⟩ := delTxs_spec false w he; rw [e] at h; cases h
     · rintro ⟨_, _, h, _⟩; cases h
   | get time size =>
     rw [step_get]
     constructor
     · intro h
       by_cases hs : 0 < size
-      · obtain ⟨p', l, e, _⟩ := getTxs_spec fixed w time hs; rw [e] at h; cases h
+      · obtain ⟨p', l, e, _⟩ := getTxs_spec false w time hs; rw [e] at h; cases h
       · by_cases h0 : size < 0
         · exact ⟨time, size, rfl, h0⟩
         · have : size = 0 := by omega
@@ -130,18 +160,30 @@ theorem never_deleted (pre mid : List Op) (ds : List (Option Tx)) (d : Tx) (k : 
   intro t ht
   exact live_absent v habs t ((get_sub_live true v.toWInv h).1.subset ht)
 
-/-- **none_lost**: a transaction that `AddTx` accepted is handed out by every later selection that is not
-    cut short by `size` and at whose time it is not expired, provided that in between no `DelTxs` named a
-    transaction sharing a hash with it and no scanning `GetTxs` saw it expired.
-    "Large enough": `size ≥` the number of slots (≥ the number of pending transactions). -/
-theorem none_lost (pre mid : List Op) (t : Tx) (time : Nat) (size : Int) (l : List Tx)
-    (hacc : (step true (runState true newPool pre) (.add (some t))).2 = .ok)
+/-- **none_lost_pending** (the general form): a transaction that is pending after the calls `pre` — however
+    it got there: `AddTx`, `AddTxs`, a fork switch — is handed out by every later selection whose `size` is
+    at least the number of PENDING transactions at that moment and at whose time it is not expired, provided
+    that in between no `DelTxs` named a transaction sharing a hash with it (`touches`: the tx itself, a box
+    containing it, or — for a box — one of its sub-txs: a box one of whose sub-txs was mined elsewhere cannot
+    be mined any more and is dropped as a whole; its other sub-txs were never pending on their own) and no
+    scanning `GetTxs` saw it expired. -/
+theorem none_lost_pending (pre mid : List Op) (t : Tx) (time : Nat) (size : Int) (l : List Tx)
+    (hpend : t ∈ live (runState true newPool pre))
     (hmid : ∀ op ∈ mid, ¬ touches t op ∧ ¬ expires t op)
     (hto : isTxTimeOut t time = false)
-    (hsz : ((runState true newPool (pre ++ [.add (some t)] ++ mid)).txs.length : Int) ≤ size)
-    (h : handedOut true (pre ++ [.add (some t)] ++ mid) time size = .txs l) : t ∈ l := by
+    (hsz : ((live (runState true newPool (pre ++ mid))).length : Int) ≤ size)
+    (h : handedOut true (pre ++ mid) time size = .txs l) : t ∈ l := by
   unfold handedOut at h
-  have v := inv_run (pre ++ [.add (some t)] ++ mid)
+  obtain ⟨i, hi⟩ := mem_live.mp hpend
+  have hlive := runState_fixed_keeps (inv_run pre) hi hmid
+  rw [runState_append] at h hsz
+  have v : Inv (runState true (runState true newPool pre) mid) := runState_fixed_inv (inv_run pre) mid
+  exact get_complete v hlive hto hsz h
+
+/-- a transaction accepted by `AddTx` is pending -/
+theorem add_ok_pending (pre : List Op) (t : Tx)
+    (hacc : (step true (runState true newPool pre) (.add (some t))).2 = .ok) :
+    t ∈ live (runState true newPool (pre ++ [.add (some t)])) := by
   have hok : (addTx (runState true newPool pre) (some t)).2 = .ok := by
     simp only [step] at hacc
     split at hacc
@@ -149,47 +191,179 @@ theorem none_lost (pre mid : List Op) (t : Tx) (time : Nat) (size : Int) (l : Li
     · cases hacc
   have hl := addTx_ok_live hok
   rw [← step_add_fst true] at hl
-  have hlive := runState_fixed_keeps (step_fixed_inv (inv_run pre) (.add (some t))) hl hmid
-  have e : runState true newPool (pre ++ [.add (some t)] ++ mid)
-      = runState true (step true (runState true newPool pre) (.add (some t))).1 mid := by
-    rw [runState_append, runState_append]; rfl
-  rw [e] at h hsz v
-  exact get_complete v hlive hto hsz h
+  rw [runState_append]
+  exact mem_live.mpr ⟨_, hl⟩
+
+/-- **adds_pending**: `AddTxs(ts)` makes a listed transaction pending if no index entry exists for any of its
+    hashes and no other listed transaction shares a hash with it (with `CleanRun`, "no index entry" is "no
+    pending transaction shares a hash": `fork_switch_adds_partial`). -/
+theorem adds_pending (pre : List Op) (ts : List (Option Tx)) (t : Tx) (ht : some t ∈ ts)
+    (hfree : ∀ k ∈ t.keys, lookup (runState true newPool pre).idx k = none)
+    (hdis : ∀ t', some t' ∈ ts → t' ≠ t → KeysDisjoint t t') :
+    t ∈ live (runState true newPool (pre ++ [.adds ts])) := by
+  rw [runState_append]
+  show t ∈ live (step true (runState true newPool pre) (.adds ts)).1
+  rw [step_adds_fst]
+  have hne : ts.isEmpty = false := by cases ts with | nil => simp at ht | cons _ _ => rfl
+  simp only [hne, Bool.false_eq_true, if_false]
+  exact addLoop_accepts 0 ts ht hfree hdis
+
+/-- **none_lost** (AddTx form): an accepted transaction is handed out by every later large-enough selection
+    unless it was deleted or seen expired in between. -/
+theorem none_lost (pre mid : List Op) (t : Tx) (time : Nat) (size : Int) (l : List Tx)
+    (hacc : (step true (runState true newPool pre) (.add (some t))).2 = .ok)
+    (hmid : ∀ op ∈ mid, ¬ touches t op ∧ ¬ expires t op)
+    (hto : isTxTimeOut t time = false)
+    (hsz : ((live (runState true newPool (pre ++ [.add (some t)] ++ mid))).length : Int) ≤ size)
+    (h : handedOut true (pre ++ [.add (some t)] ++ mid) time size = .txs l) : t ∈ l := by
+  have hp := add_ok_pending pre t hacc
+  have := none_lost_pending (pre ++ [.add (some t)]) mid t time size l hp hmid hto
+  exact this hsz h
 
 /-- **fork_switch_content** (`onCurrentChanged` on a fork switch = `AddTxs(oldForkTxs); DelTxs(newForkTxs)`):
-    afterwards (a) no pending transaction shares a hash with a transaction of the new fork; (b) every
-    transaction that was pending before, or became pending by the `AddTxs`, and shares no hash with the new
-    fork is still pending; (c) an old-fork transaction does become pending by the `AddTxs` if none of its
-    hashes was indexed and no other old-fork transaction shares a hash with it. -/
+    (a) after the `DelTxs` no pending transaction shares a hash with a transaction of the new fork — this
+    holds for the state after ANY `DelTxs(new)`, whatever other calls were interleaved before it;
+    (b) every transaction that was pending before, or became pending by the `AddTxs`, and shares no hash with
+    the new fork is still pending (no other call between the two).
+    Which old-fork transactions the `AddTxs` makes pending: `adds_pending`, `fork_switch_adds_partial`. -/
 theorem fork_switch_content (ops : List Op) (old new : List (Option Tx)) :
     let p := runState true newPool ops
     let p1 := (step true p (.adds old)).1
     let q := (step true p1 (.del new)).1
     (∀ n, some n ∈ new → ∀ k ∈ n.keys, ∀ t ∈ live q, k ∉ t.keys) ∧
-    (∀ t, (t ∈ live p ∨ t ∈ live p1) → (∀ n, some n ∈ new → KeysDisjoint n t) → t ∈ live q) ∧
-    (∀ t, some t ∈ old → (∀ k ∈ t.keys, lookup p.idx k = none) →
-        (∀ t', some t' ∈ old → t' ≠ t → KeysDisjoint t t') → t ∈ live p1) := by
+    (∀ t, (t ∈ live p ∨ t ∈ live p1) → (∀ n, some n ∈ new → KeysDisjoint n t) → t ∈ live q) := by
   intro p p1 q
   have vp : Inv p := inv_run ops
   have vp1 : Inv p1 := step_fixed_inv vp _
   have vq : Inv q := step_fixed_inv vp1 _
-  refine ⟨fun n hn k hk => live_absent vq (del_absent vp1.toWInv hn hk), fun t ht hdis => ?_, fun t ht hfree hd => ?_⟩
-  · have h1 : t ∈ live p1 := by
-      rcases ht with h | h
-      · obtain ⟨i, hi⟩ := mem_live.mp h
-        exact mem_live.mpr ⟨i, step_fixed_keeps vp hi (fun x => x) (fun x => x)⟩
-      · exact h
-    obtain ⟨i, hi⟩ := mem_live.mp h1
-    refine mem_live.mpr ⟨i, step_fixed_keeps vp1 hi ?_ (fun x => x)⟩
-    rintro ⟨d, hd, k, hkd, hkt⟩
-    exact hdis d hd k hkd hkt
-  · show t ∈ live (step true p (.adds old)).1
-    rw [step_adds_fst]
-    have hne : old.isEmpty = false := by cases old with | nil => simp at ht | cons _ _ => rfl
-    simp only [hne, Bool.false_eq_true, if_false]
-    exact addLoop_accepts 0 old ht hfree hd
+  refine ⟨fun n hn k hk => live_absent vq (del_absent vp1.toWInv hn hk), fun t ht hdis => ?_⟩
+  have h1 : t ∈ live p1 := by
+    rcases ht with h | h
+    · obtain ⟨i, hi⟩ := mem_live.mp h
+      exact mem_live.mpr ⟨i, step_fixed_keeps vp hi (fun x => x) (fun x => x)⟩
+    · exact h
+  obtain ⟨i, hi⟩ := mem_live.mp h1
+  refine mem_live.mpr ⟨i, step_fixed_keeps vp1 hi ?_ (fun x => x)⟩
+  rintro ⟨d, hd, k, hkd, hkt⟩
+  exact hdis d hd k hkd hkt
 
-/-! ### the code BEFORE /repo commit 85d2f65 (`fixed = false`): refutations (one defect, four symptoms)
+/-! ### current code: the open defect (stale index entries) — refutations and the guarded theorems -/
+
+section stale
+def s1 : Tx := ⟨1, 1000, []⟩
+def s2 : Tx := ⟨2, 1000, []⟩
+def boxS : Tx := ⟨3, 1000, [⟨1, 1000⟩, ⟨2, 1000⟩]⟩
+/-- `AddTxs([box(s1,s2)]); DelTxs([s2])`: the box's slot is cleared, the entries of the box hash and of `s1`
+    stay behind (review H1/H2; also reached by `DelTxs` of another box containing `s2`). -/
+def WS : List Op := [.adds [some boxS], .del [some s2]]
+
+/-- REFUTED on the current code: nothing is pending but `IsEmpty()` is false (the miner's
+    `waitCanPackageTx` stops waiting; `gc` never fires). -/
+theorem isEmpty_iff_nothing_pending_refuted :
+    ¬ ∀ ops : List Op, isEmpty (runState true newPool ops) = true ↔ live (runState true newPool ops) = [] := by
+  intro h
+  have := (h WS).mpr (by decide)
+  revert this; decide
+
+/-- REFUTED on the current code: `AddTx(s1)` is refused although no pending transaction shares a hash with it. -/
+theorem add_accepted_iff_no_conflict_refuted :
+    ¬ ∀ (ops : List Op) (t : Tx), (step true (runState true newPool ops) (.add (some t))).2 = .ok ↔
+        ∀ x ∈ live (runState true newPool ops), KeysDisjoint t x := by
+  intro h
+  have hnil : live (runState true newPool WS) = [] := by decide
+  have := (h WS s1).mpr (by intro x hx; rw [hnil] at hx; cases hx)
+  revert this; decide
+
+/-- REFUTED on the current code: after a `DelTxs` that leaves nothing pending the slots are not reclaimed
+    (so with a stale entry around, every add/delete pair grows `pool.txs` by one, without bound). -/
+theorem slots_reclaimed_refuted :
+    ¬ ∀ (ops : List Op) (ds : List (Option Tx)), ds ≠ [] →
+        live (runState true newPool (ops ++ [.del ds])) = [] → (runState true newPool (ops ++ [.del ds])).txs = [] := by
+  intro h
+  have := h (WS ++ [.add (some s2)]) [some s2] (by simp) (by decide)
+  revert this; decide
+end stale
+
+theorem noStale_run {ops : List Op} (c : CleanRun newPool ops) : NoStale (runState true newPool ops) :=
+  runState_fixed_noStale inv_new noStale_new c
+
+/-- **isEmpty_iff_nothing_pending_partial**: if every `DelTxs` removed whole transactions only, `IsEmpty()`
+    says exactly whether something is pending. -/
+theorem isEmpty_iff_nothing_pending_partial (ops : List Op) (c : CleanRun newPool ops) :
+    isEmpty (runState true newPool ops) = true ↔ live (runState true newPool ops) = [] :=
+  isEmpty_iff_live_nil (inv_run ops) (noStale_run c)
+
+/-- **add_accepted_iff_no_conflict_partial**: … `AddTx` then accepts a transaction iff no pending transaction
+    shares a hash with it (the set specification's acceptance rule). -/
+theorem add_accepted_iff_no_conflict_partial (ops : List Op) (c : CleanRun newPool ops) (t : Tx) :
+    (step true (runState true newPool ops) (.add (some t))).2 = .ok ↔
+      ∀ x ∈ live (runState true newPool ops), KeysDisjoint t x := by
+  have v := inv_run ops
+  have hn := noStale_run c
+  generalize runState true newPool ops = p at v hn
+  have hiff : (step true p (.add (some t))).2 = .ok ↔ ∀ k ∈ t.keys, lookup p.idx k = none := by
+    constructor
+    · intro hacc
+      have hok : (addTx p (some t)).2 = .ok := by
+        simp only [step] at hacc
+        split at hacc
+        · rename_i he; rw [he]
+        · cases hacc
+      rcases addTx_cases p (some t) with ⟨_, e⟩ | ⟨tx, ht, hfree, _, _, _⟩
+      · exact absurd hok e
+      · cases ht; exact hfree
+    · intro hfree
+      have he : isTxExist p t = false := by
+        unfold isTxExist
+        rw [List.any_eq_false]
+        intro k hk; simp [hfree k hk]
+      simp [step, addTx, he]
+  rw [hiff]
+  constructor
+  · intro hfree x hx k hk
+    exact (indexed_iff_pending v hn k).mp (hfree k hk) x hx
+  · intro hd k hk
+    exact (indexed_iff_pending v hn k).mpr (fun x hx => hd x hx k hk)
+
+/-- **slots_reclaimed_partial**: … a `DelTxs` that leaves nothing pending resets the slots (`gc`). -/
+theorem slots_reclaimed_partial (ops : List Op) (ds : List (Option Tx)) (hne : ds ≠ [])
+    (c : CleanRun newPool (ops ++ [.del ds]))
+    (hl : live (runState true newPool (ops ++ [.del ds])) = []) :
+    (runState true newPool (ops ++ [.del ds])).txs = [] := by
+  have he := (isEmpty_iff_nothing_pending_partial _ c).mpr hl
+  have hlk : ∀ k, lookup (runState true newPool (ops ++ [.del ds])).idx k = none := fun k => lookup_of_isEmpty he k
+  rw [runState_append] at hlk ⊢
+  show (step true (runState true newPool ops) (.del ds)).1.txs = []
+  have hlk' : ∀ k, lookup (step true (runState true newPool ops) (.del ds)).1.idx k = none := hlk
+  rw [step_del] at hlk' ⊢
+  have hds : ds.isEmpty = false := by cases ds with | nil => exact absurd rfl hne | cons _ _ => rfl
+  obtain ⟨p', e1, e, _⟩ := delTxs_spec true (winv_run true ops) hds
+  rw [e] at hlk' ⊢
+  simp only at hlk' ⊢
+  unfold gc at hlk' ⊢
+  split
+  · rfl
+  · rename_i hidx
+    simp only [hidx, Bool.false_eq_true, if_false] at hlk'
+    exfalso
+    cases hi : p'.idx with
+    | nil => simp [hi] at hidx
+    | cons kv r =>
+      obtain ⟨k, i⟩ := kv
+      have := hlk' k
+      rw [hi] at this; simp [lookup] at this
+
+/-- **fork_switch_adds_partial** (clause (c) of the fork switch, under the guard): if every earlier `DelTxs`
+    removed whole transactions only, an old-fork transaction becomes pending by `AddTxs(old)` whenever no
+    pending transaction and no other old-fork transaction shares a hash with it. -/
+theorem fork_switch_adds_partial (ops : List Op) (c : CleanRun newPool ops) (old : List (Option Tx)) (t : Tx)
+    (ht : some t ∈ old) (hfree : ∀ x ∈ live (runState true newPool ops), KeysDisjoint t x)
+    (hdis : ∀ t', some t' ∈ old → t' ≠ t → KeysDisjoint t t') :
+    t ∈ live (runState true newPool (ops ++ [.adds old])) :=
+  adds_pending ops old t ht
+    (fun k hk => (indexed_iff_pending (inv_run ops) (noStale_run c) k).mpr (fun x hx => hfree x hx k hk)) hdis
+
+/-! ### LEGACY — the code BEFORE /repo commits 85d2f65 and 6d2038c (`fixed = false`): refutations (one defect, four symptoms)
 
   These four theorems are about the model of `delTx` as it was before the fix; they document why the fix
   was needed and are the witnesses the harness replays (episodes `witness`, `witness-lost`). -/
@@ -240,7 +414,7 @@ theorem none_lost_refuted :
     ¬ ∀ (pre mid : List Op) (t : Tx) (time : Nat) (size : Int) (l : List Tx),
         (step false (runState false newPool pre) (.add (some t))).2 = .ok →
         (∀ op ∈ mid, ¬ touches t op ∧ ¬ expires t op) → isTxTimeOut t time = false →
-        ((runState false newPool (pre ++ [.add (some t)] ++ mid)).txs.length : Int) ≤ size →
+        ((live (runState false newPool (pre ++ [.add (some t)] ++ mid))).length : Int) ≤ size →
         handedOut false (pre ++ [.add (some t)] ++ mid) time size = .txs l → t ∈ l := by
   intro h
   have := h [.add (some boxA'), .del [some boxA]] [.get 10 100, .add (some c), .del [some c]] a 0 100 []
@@ -261,21 +435,21 @@ theorem none_lost_refuted :
   simp at this
 end witnesses
 
-/-! ### the code before commit 85d2f65 (`fixed = false`), under the guard -/
+/-! ### LEGACY — the code before commits 85d2f65/6d2038c (`fixed = false`), under the guard -/
 
-theorem box_exclusive_partial (ops : List Op) (g : Guarded newPool ops) (time : Nat) (size : Int) (l : List Tx)
-    (h : handedOut false ops time size = .txs l) : l.Pairwise KeysDisjoint := by
-  rw [guarded_eq g] at h; exact box_exclusive ops time size l h
+theorem box_exclusive_partial (ops : List Op) (g : Guarded newPool ops) (time : Nat) (size : Int) (hs : 0 ≤ size)
+    (l : List Tx) (h : handedOut false ops time size = .txs l) : l.Pairwise KeysDisjoint := by
+  rw [guarded_eq g time hs] at h; exact box_exclusive ops time size l h
 
 theorem no_duplicates_handed_out_partial (ops : List Op) (g : Guarded newPool ops) (time : Nat) (size : Int)
-    (l : List Tx) (h : handedOut false ops time size = .txs l) : (l.map Tx.hash).Nodup := by
-  rw [guarded_eq g] at h; exact no_duplicates_handed_out ops time size l h
+    (hs : 0 ≤ size) (l : List Tx) (h : handedOut false ops time size = .txs l) : (l.map Tx.hash).Nodup := by
+  rw [guarded_eq g time hs] at h; exact no_duplicates_handed_out ops time size l h
 
 theorem never_deleted_partial (pre mid : List Op) (ds : List (Option Tx)) (d : Tx) (k : Hash)
-    (time : Nat) (size : Int) (l : List Tx) (g : Guarded newPool (pre ++ [.del ds] ++ mid))
+    (time : Nat) (size : Int) (hs : 0 ≤ size) (l : List Tx) (g : Guarded newPool (pre ++ [.del ds] ++ mid))
     (hd : some d ∈ ds) (hk : k ∈ d.keys) (hmid : ∀ op ∈ mid, ¬ addsKey k op)
     (h : handedOut false (pre ++ [.del ds] ++ mid) time size = .txs l) : ∀ t ∈ l, k ∉ t.keys := by
-  rw [guarded_eq g] at h; exact never_deleted pre mid ds d k time size l hd hk hmid h
+  rw [guarded_eq g time hs] at h; exact never_deleted pre mid ds d k time size l hd hk hmid h
 
 theorem guarded_prefix {p : Pool} {a b : List Op} (g : Guarded p (a ++ b)) : Guarded p a := by
   induction a generalizing p with
@@ -287,9 +461,10 @@ theorem none_lost_partial (pre mid : List Op) (t : Tx) (time : Nat) (size : Int)
     (hacc : (step false (runState false newPool pre) (.add (some t))).2 = .ok)
     (hmid : ∀ op ∈ mid, ¬ touches t op ∧ ¬ expires t op)
     (hto : isTxTimeOut t time = false)
-    (hsz : ((runState false newPool (pre ++ [.add (some t)] ++ mid)).txs.length : Int) ≤ size)
+    (hsz : ((live (runState false newPool (pre ++ [.add (some t)] ++ mid))).length : Int) ≤ size)
     (h : handedOut false (pre ++ [.add (some t)] ++ mid) time size = .txs l) : t ∈ l := by
-  rw [guarded_eq g] at h
+  have hs : 0 ≤ size := by omega
+  rw [guarded_eq g time hs] at h
   rw [(run_eq_of_guarded inv_new g).1] at hsz
   have gpre : Guarded newPool pre := by
     rw [List.append_assoc] at g; exact guarded_prefix g
@@ -306,7 +481,7 @@ theorem guard_of_own_slot {p : Pool} {d : Tx}
 
 example : Guarded newPool [.add (some boxA), .add (some c), .del [some boxA, some c], .get 0 5] :=
   ⟨trivial, trivial, ⟨txGuard_of_own_slot (by decide), fun _ _ => ⟨fun _ _ => trivial, fun _ _ => trivial⟩⟩,
-    trivial, trivial⟩
+    (by decide : (0 : Int) ≤ 5), trivial⟩
 example : ¬ Guarded newPool W1 := by
   intro g
   have h := g.2.2.1.1 _ rfl
@@ -316,23 +491,77 @@ example : handedOut false [.add (some a), .add (some c), .del [some c]] 0 10 = .
 example : handedOut true W1 0 10 = .txs [c, a] := by decide
 example : (step true (runState true newPool []) (.add (some a))).2 = .ok := by decide
 
+/-- `none_lost` with a non-empty `mid` (an add, a scanning GetTxs, a delete of another tx): all hypotheses
+    hold and the conclusion is the expected selection -/
+example :
+    (step true (runState true newPool []) (.add (some a))).2 = .ok ∧
+    (∀ op ∈ ([.add (some c), .get 7 1, .del [some c]] : List Op), ¬ touches a op ∧ ¬ expires a op) ∧
+    isTxTimeOut a 0 = false ∧
+    ((live (runState true newPool ([] ++ [.add (some a)] ++ [.add (some c), .get 7 1, .del [some c]]))).length : Int) ≤ 1 ∧
+    handedOut true ([] ++ [.add (some a)] ++ [.add (some c), .get 7 1, .del [some c]]) 0 1 = .txs [a] := by
+  refine ⟨by decide, ?_, by decide, by decide, by decide⟩
+  intro op hop
+  simp only [List.mem_cons, List.not_mem_nil, or_false] at hop
+  rcases hop with rfl | rfl | rfl
+  · exact ⟨fun x => x, fun x => x⟩
+  · refine ⟨fun x => x, ?_⟩
+    rintro ⟨_, h⟩; revert h; decide
+  · refine ⟨?_, fun x => x⟩
+    rintro ⟨d, hd, k, hkd, hkt⟩
+    simp only [List.mem_cons, List.not_mem_nil, or_false, Option.some.injEq] at hd
+    subst hd
+    simp only [a, c, Tx.keys, List.map_nil, List.mem_singleton] at hkd hkt
+    exact absurd (hkd.symm.trans hkt) (by decide)
+
+/-- `CleanRun` is satisfiable with deletions (a pooled box deleted as a whole), and `WS` violates it -/
+example : CleanRun newPool [.add (some boxS), .del [some boxS], .isEmpty] :=
+  ⟨trivial, ⟨cleanDel_of_live (step_fixed_inv inv_new _) (j := 0) (by decide), fun _ _ => trivial⟩, trivial, trivial⟩
+example : ¬ CleanRun newPool WS := by
+  intro h
+  have := h.2.1.1 2 (by decide) 0 boxS (by decide) (by decide) 3 (by decide)
+  revert this; decide
+
+/-- `fork_switch_adds_partial` on a NON-empty pool: `c` is pending, the old fork carries `a` and `c` -/
+example : a ∈ live (runState true newPool ([.add (some c)] ++ [.adds [some a, some c]])) :=
+  fork_switch_adds_partial [.add (some c)] ⟨trivial, trivial⟩ [some a, some c] a (by simp)
+    (by decide : ∀ x ∈ live (runState true newPool [.add (some c)]), ∀ k ∈ a.keys, k ∉ x.keys)
+    (by
+      intro t' ht' hne
+      simp only [List.mem_cons, List.not_mem_nil, or_false, Option.some.injEq] at ht'
+      rcases ht' with rfl | rfl
+      · exact absurd rfl hne
+      · exact (by decide : ∀ k ∈ a.keys, k ∉ c.keys))
+
 /-! ### interleavings
 
-  FACT (checked on every run by `hx c18`, op lines `lock <Method> true` / `escape <Method> false`, a
-  go/ast scan of tx_pool.go): every exported method of `*TxPool` executes `pool.RW.Lock()` immediately
-  followed by `defer pool.RW.Unlock()` before its first access of the pool, contains no other lock
-  call, no `go` statement and no closure, and returns no field of the pool (`GetTxs` returns a fresh
-  slice of immutable `*Transaction`s).  What precedes the lock touches only arguments and locals.
+  What is PROVED here is little: `Exec` DEFINES a semantics in which every call is one atomic transition
+  (threads with programs; at each step some thread runs its next call to completion), and `linearizable`
+  merely unfolds that definition: the state and results of such an execution are those of the sequential
+  run of the calls in execution order.  It is kept as the bridge lemma, not as evidence.  The step from real
+  goroutines to `Exec` is NOT a theorem; it rests on:
 
-  ASSUMPTION (Go's `sync.RWMutex` gives mutual exclusion and happens-before between an `Unlock` and the
-  next `Lock`; not modelled): consequently a method body is one atomic transition of the pool, and a
-  concurrent execution of any number of goroutines is described by the list of calls in the order in
-  which they acquired the lock.  `Exec` below is exactly this atomic-method semantics: threads with
-  programs, at each step some thread whose program is not finished runs its next call to completion.
+  FACT (checked on every run by `hx c18`, op lines `lock <Method> true` / `escape <Method> false` /
+  `helpers true` / `foreignlock false`, a go/ast scan of package chain/txpool and of the users of `TxPool.RW`):
+  every exported method of `*TxPool` takes the EXCLUSIVE lock (`pool.RW.Lock()`, an `RLock` is rejected
+  because `GetTxs` writes) immediately followed by `defer pool.RW.Unlock()` before its first access of the
+  pool, contains no other lock call, no `go` statement and no closure; the unexported helpers
+  (`addTx`, `delTx`, `isTxExist`, `gc`) contain no lock call, `go` statement or closure; no method returns
+  or aliases a field of the pool (static scan + dynamic check: the harness overwrites the slice returned by
+  `GetTxs` and the pool state is unchanged); no file outside the package touches `TxPool.RW`.
 
-  THEOREM `linearizable`: the final state and every call's result in any such execution are those of
-  the SEQUENTIAL run of the lock-order call list; since every theorem above is quantified over all
-  call lists, it holds for every interleaving (`concurrent_*` below instantiate this).
+  ASSUMPTION (not modelled): Go's `sync.RWMutex` gives mutual exclusion and happens-before between an
+  `Unlock` and the next `Lock`.  Supporting evidence only: the goroutine stress of `hx c18` (per-goroutine
+  sequential views + serialised rounds compared with the model line by line) and, in the thorough tier, the
+  same stress built with `-race`.
+
+  NOT covered by `Exec`-level atomicity (each is several separately locked calls; other goroutines — network
+  `AddTx`, RPC `GetTxs`, which do not take the engine's `chainLock` — may run in between):
+    * `onCurrentChanged` = `AddTxs(old)` then `DelTxs(new)`: clause (a) of `fork_switch_content` survives
+      any interleaving (it is a statement about the state after the `DelTxs`), clause (b) assumes no call in
+      between that deletes or expires the tx;
+    * `TxGuard.ExistTx` then `TxPool.AddTx` (api.go, protocol_manager.go) is not atomic against a block's
+      `DelTxs`: a tx mined in between is accepted again after its deletion (`never_deleted` excludes this by
+      its hypothesis "no call re-adds the hash"); the next `GetTxs`/mining round rejects it via the guard.
 -/
 
 /-- atomic-method executions of `progs` (one program per thread) from state `p`: the trace lists
@@ -345,6 +574,8 @@ inductive Exec (fixed : Bool) : Pool → List (List Op) → List (Nat × Op × O
       Exec fixed (step fixed p op).1 (progs.set i rest) tr p' →
       Exec fixed p progs ((i, op, (step fixed p op).2) :: tr) p'
 
+/-- bridge lemma (definitional, see the section comment): an atomic-method execution IS the sequential run of
+    its calls in execution order -/
 theorem linearizable (fixed : Bool) {p p' : Pool} {progs : List (List Op)} {tr : List (Nat × Op × Out)}
     (e : Exec fixed p progs tr p') :
     p' = runState fixed p (tr.map (·.2.1)) ∧ tr.map (·.2.2) = runOut fixed p (tr.map (·.2.1)) := by
